@@ -11,6 +11,8 @@ import (
 	"fmt"
 	"github.com/semihalev/twig"
 	"io"
+	"regexp"
+	"strconv"
 	"strings"
 	"testing"
 
@@ -824,3 +826,102 @@ func TestC08TypedIn(t *testing.T) {
 }
 
 func init() { reg("C08.typedin", checkC08TypedIn) }
+
+// ---- matches against Go's regexp package; strings that spell float specials -------------------------------------
+
+type C08MatchCase struct {
+	Subject string `json:"subject"`
+	Pattern string `json:"pattern"` // regular expression between the slashes
+	Flag    string `json:"flag"`    // "" or "i"
+}
+
+// checkC08Match: `s matches '/re/'` is whether the regular expression matches; the reference is the
+// regexp package itself, given the same expression.
+func checkC08Match(c C08MatchCase) error {
+	re := c.Pattern
+	if c.Flag == "i" {
+		re = "(?i)" + re
+	}
+	rx, err := regexp.Compile(re)
+	if err != nil {
+		return nil
+	}
+	want := map[bool]string{true: "yes", false: "no"}[rx.MatchString(c.Subject)]
+	lit := "/" + c.Pattern + "/" + c.Flag
+	// as a string literal (backslashes doubled for the template's string syntax) and as a variable
+	srcLit := "{{ s matches '" + strings.ReplaceAll(strings.ReplaceAll(lit, "\\", "\\\\"), "'", "\\'") + "' ? 'yes' : 'no' }}"
+	srcVar := "{{ s matches p ? 'yes' : 'no' }}|{% if s matches p %}yes{% else %}no{% endif %}"
+	ctx := map[string]interface{}{"s": c.Subject, "p": lit}
+	if r := render1(srcLit, ctx); r.Failed() || r.Out != want {
+		return fmt.Errorf("%s with s = %s renders %v; the regular expression %s %s", srcLit, q(c.Subject), r, q(re), map[string]string{"yes": "matches", "no": "does not match"}[want])
+	}
+	if r := render1(srcVar, ctx); r.Failed() || r.Out != want+"|"+want {
+		return fmt.Errorf("%s with s = %s, p = %s renders %v; the regular expression %s", srcVar, q(c.Subject), q(lit), r, map[string]string{"yes": "matches", "no": "does not match"}[want])
+	}
+	return nil
+}
+
+func TestC08Matches(t *testing.T) {
+	r := NewRec(t, "C08", "exhaustive: 22 regular expressions (classes \\\\d \\\\w \\\\s inside and outside brackets, negated classes, escaped dot and backslash, anchors, alternation, patterns that end in the letter i, quantifiers) x {no flag, i} x 12 subjects, written as string literal and passed as variable, in a ternary and in an if; oracle: Go's regexp package on the same expression; non-trivial = the pattern has a class or ends in i")
+	defer r.Flush()
+	r.SetExhaustive()
+	pats := []string{`^[\d\.]+$`, `^[\w\s]+$`, `^[^\d]$`, `^[\w-]+$`, `\d+`, `^\w+$`, `\s`, `hi`, `^taxi`, `ski`, `^h`, `a|b`, `^\d{3}-\d{2}$`, `\\`, `^C:\\`, `\.`, `^$`, `[a-c]x?`, `(ab)+`, `i`, `^[A-Z][a-z]+$`, `\bfoo\b`}
+	subjects := []string{"123.456", "a b", "x", "foo-bar", "h", "Hello", "HI", "tax", "Ski", "taxi", `C:\dir`, ""}
+	for _, p := range pats {
+		for _, f := range []string{"", "i"} {
+			for _, s := range subjects {
+				c := C08MatchCase{Subject: s, Pattern: p, Flag: f}
+				r.Case(p+f+s, strings.ContainsAny(p, `\[`) || strings.HasSuffix(p, "i"), c)
+				if err := checkC08Match(c); err != nil {
+					r.FailEnumKey(t, "C08.match", p+f, c, err)
+				}
+			}
+		}
+	}
+}
+
+type C08WordCase struct {
+	A string `json:"a"`
+	B string `json:"b"`
+}
+
+// checkC08Words: two strings are equal exactly when they are the same text or spell the same decimal
+// number; words like nan, inf, infinity, 1_0 and 0x1p4 are words.
+func checkC08Words(c C08WordCase) error {
+	want := c.A == c.B
+	if fa, ea := strconv.ParseFloat(c.A, 64); ea == nil && c08Decimal.MatchString(c.A) {
+		if fb, eb := strconv.ParseFloat(c.B, 64); eb == nil && c08Decimal.MatchString(c.B) {
+			want = fa == fb
+		}
+	}
+	w := map[bool]string{true: "eq", false: "ne"}[want]
+	src := "{{ a == b ? 'eq' : 'ne' }}|{{ a != b ? 'ne' : 'eq' }}|{{ a in [b] ? 'eq' : 'ne' }}|{% if a == b %}eq{% else %}ne{% endif %}"
+	r := render1(src, map[string]interface{}{"a": c.A, "b": c.B})
+	if r.Failed() || r.Out != w+"|"+w+"|"+w+"|"+w {
+		return fmt.Errorf("a = %s, b = %s: %s renders %v, want %s four times", q(c.A), q(c.B), src, r, w)
+	}
+	return nil
+}
+
+var c08Decimal = regexp.MustCompile(`^[+-]?(\d+\.?\d*|\.\d+)([eE][+-]?\d+)?$`)
+
+func TestC08Words(t *testing.T) {
+	r := NewRec(t, "C08", "exhaustive: all ordered pairs of 16 strings (nan, NaN, Nan, inf, Inf, infinity, +Inf, 1_0, 10, 0x1p4, 16, 1e1, abc, '', 10.0, -0) under ==, !=, in and an if condition; oracle: equal when they are the same text or spell the same decimal number; non-trivial = one of the strings spells a float special, an underscore or hex form")
+	defer r.Flush()
+	r.SetExhaustive()
+	words := []string{"nan", "NaN", "Nan", "inf", "Inf", "infinity", "+Inf", "1_0", "10", "0x1p4", "16", "1e1", "abc", "", "10.0", "-0"}
+	for _, a := range words {
+		for _, b := range words {
+			c := C08WordCase{A: a, B: b}
+			r.Case(a+"/"+b, !c08Decimal.MatchString(a) || !c08Decimal.MatchString(b), c)
+			if err := checkC08Words(c); err != nil {
+				r.FailEnumKey(t, "C08.words", a, c, err)
+			}
+		}
+	}
+}
+
+func init() {
+	reg("C08.match", checkC08Match)
+	reg("C08.words", checkC08Words)
+}
